@@ -36,7 +36,7 @@ ASSUMPTIONS = [
 FLOORS = {
     'quick': {'cases': 12000, 'memo_mattered': 2500, 'cfg:memo_off': 8000, 'cfg:plm_0.01': 10000, 'cfg:trace': 10000,
               'cfg:trace_color': 10000, 'cfg:parseinfo': 10000, 'cfg:noprune': 10000, 'lrec_cases': 1000,
-              'trace_chars': 100000, 'trace_escapes': 1000, 'accepted': 4000, 'failed': 3000, 'similar_rule_names': 500, 'failing_semantics_mattered': 2000, 'cfg_failing:memo_off': 8000},
+              'trace_chars': 100000, 'trace_escapes': 1000, 'accepted': 4000, 'failed': 3000, 'similar_rule_names': 500, 'nested_family': 150, 'nested_family_with_nomemo_or_nostak': 80, 'failing_semantics_mattered': 2000, 'cfg_failing:memo_off': 8000},
     'thorough': {'cases': 250000, 'memo_mattered': 50000, 'lrec_cases': 20000},
 }
 PEAK_COUNTERS = ('max_memo_len_over_capacity',)
@@ -82,6 +82,10 @@ def retry_grammar(rng):
             extra = L.Choice((L.Seq((C(x), L.Cut(), L.Tok('b'))), L.Seq((C(x), L.Tok('c')))))
         elif k < 0.8:
             extra = L.Seq((L.NLA(L.Seq((C(x), L.Tok('c')))), C(x), L.Opt(C(x))))
+        elif k < 0.92:
+            # between two uses of x, an alternative that fails where x failed but with ANOTHER class of error: which
+            # failure is reported must not depend on whether the last one was replayed from the memo table
+            extra = L.Choice((L.Seq((C(x), L.Tok('b'))), L.Group(other_failure(rng, g.rule(x).body)), L.Seq((C(x), L.Tok('c')))))
         else:
             extra = None
         if extra is not None:
@@ -94,6 +98,63 @@ def retry_grammar(rng):
             if rng.random() < 0.6:
                 r.decorators = ('name',)
     return g
+
+
+def other_failure(rng, body):
+    """a copy of the expression with one token/pattern leaf replaced by a leaf that fails with another exception class"""
+    leaves = [x for x in L.walk(body) if isinstance(x, (L.Tok, L.Pat))]
+    if not leaves:
+        return L.Seq((body, L.Pat(r'[0-9]+')))
+    target = leaves[-1] if rng.random() < 0.6 else rng.choice(leaves)
+    repl = rng.choice([L.Pat(r'[0-9]+'), L.EOF(), L.Meta('int'), L.Meta('bool'), L.NLA(L.Dot()), L.Fail(), L.Tok('zz')])
+    done = [False]
+
+    def rw(e):
+        if e is target and not done[0]:
+            done[0] = True
+            return repl
+        kids = L.children(e)
+        return L.rebuild(e, [rw(k) for k in kids]) if kids else e
+    return G.normalise(rw(body))
+
+
+DECOS = [(), (), ('nomemo',), ('nostak',), ('nomemo', 'nostak')]
+
+
+def nested_grammar(rng):
+    """recursion at later positions, nullable prefix rules, @nomemo/@nostak rules, a cut inside a sub-rule, and (sometimes)
+    a recursive call behind a nullable rule: the shapes where guards and memo keys of different rules meet at one position"""
+    C, T = L.Call, L.Tok
+    pre_body = rng.choice([L.Choice((T('-'), L.Empty())), L.Opt(T('-')), L.Clo(T('-')), L.Choice((T('-'), L.Void()))])
+    hidden = rng.random() < 0.35
+    alts = [L.Seq((T('('), C('pre'), C('r'), T(')'))), L.Seq((C('pre'), C('num')))]
+    if rng.random() < 0.6:
+        alts.append(C('s'))
+    if hidden:
+        alts.append(L.Seq((C('pre'), C('r'), T('+'), C('num'))))
+    if rng.random() < 0.5:
+        alts.append(T('z'))
+    if rng.random() < 0.4:
+        alts.append(L.Seq((C('num'), T('+'), C('r'))))
+    rng.shuffle(alts)
+    s_body = rng.choice([L.Seq((T('z'), L.Cut(), T('q'))), L.Seq((C('num'), L.Cut(), T('q'))), L.Seq((T('z'), T('q')))])
+    rules = [L.Rule('start', L.Seq((C('r'), L.EOF())) if rng.random() < 0.6 else C('r')),
+             L.Rule('r', L.Choice(tuple(alts)), rng.choice(DECOS[:3])),
+             L.Rule('pre', pre_body, rng.choice(DECOS)),
+             L.Rule('s', s_body, rng.choice(DECOS)),
+             L.Rule('num', L.Pat(r'\d'), rng.choice(DECOS))]
+    return L.Grammar(rules)
+
+
+def nested_inputs(rng, n):
+    out = ['(1)', '1', '(-1)', 'z+1', '-z+1', '((1))', 'zq', '1+1', '(1', '(z)']
+    rng.shuffle(out)
+    out = out[:4]
+    for _ in range(n):
+        out.append(''.join(rng.choice(['(', ')', '-', '1', '2', 'z', 'q', '+', ' ']) for _k in range(rng.randrange(1, 7))))
+    d = rng.randrange(1, 4)
+    out.append('(' * d + rng.choice(['', '-']) + '1' + ')' * d)
+    return out
 
 
 def lrec_grammar(rng):
@@ -235,7 +296,13 @@ def run_shard(desc, acc):
     for i in range(desc['n']):
         rng = random.Random(h64('C04', desc['seed'], desc['shard'], i))
         lrec = rng.random() < 0.15
-        if lrec:
+        if not lrec and rng.random() < 0.12:
+            g = nested_grammar(rng)
+            texts = nested_inputs(rng, 5)
+            acc.count('nested_family')
+            if any(r.decorators for r in g.rules):
+                acc.count('nested_family_with_nomemo_or_nostak')
+        elif lrec:
             g, spec = lrec_grammar(rng)
             from .c03 import inputs_for as lr_inputs
             texts = lr_inputs(rng, spec, 'quick')
